@@ -948,9 +948,40 @@ func c19KeyValueSweep(rc *RunCtx) {
 	e.FullQueryCheck(nil, []uint64{1, 3, 10, 100})
 }
 
+// c19ScalarSweep: the two owner / manager controlled scalars walked through their value classes by transactions - the
+// maximum message body size through 0, 1, the burn-message size and its neighbours, the default, 2^32, 2^63, 2^64-1 and
+// back, the signature threshold through 1..n and back - with the state tap (queries, export, raw store against the model)
+// after every step and a send whose body is one byte long in between. A stored zero is a stored value.
+func c19ScalarSweep(rc *RunCtx) {
+	if rc.Shard != 2%rc.NShards {
+		return
+	}
+	e, err := StdEngine(rc, false, false, nil)
+	if err != nil {
+		rc.Cov.Inconclusive("c19 scalar sweep engine: " + err.Error())
+		return
+	}
+	s := e.M
+	for i, v := range []uint64{0, 1, 0, 131, 132, 133, 8000, 0, 1 << 32, 1 << 63, ^uint64(0), 0, 5} {
+		r := e.Exec(Tx{Msgs: msgs1(&ct.MsgUpdateMaxMessageBodySize{From: s.Owner, MessageSize: v}), Note: fmt.Sprintf("C19 scalar sweep: max message body size %d", v)})
+		rc.Cov.Cell("C19_scalar_sweep", "max-body/"+okWord(r.OK))
+		r2 := e.Exec(Tx{Msgs: msgs1(&ct.MsgSendMessage{From: Acct(UserIx), DestinationDomain: 2, Recipient: Structured32(3), MessageBody: []byte{byte(i + 1)}}), Note: fmt.Sprintf("C19 scalar sweep: a one-byte body under max size %d", v)})
+		rc.Cov.Cell("C19_scalar_sweep", fmt.Sprintf("send-one-byte/max=%d/%s", v, okWord(r2.OK)))
+	}
+	n := uint32(len(s.Attesters))
+	for _, t := range []uint32{1, n, 1, 2, n - 1, n, 1} {
+		if t == 0 || t > n {
+			continue
+		}
+		r := e.Exec(Tx{Msgs: msgs1(&ct.MsgUpdateSignatureThreshold{From: s.AM, Amount: t}), Note: fmt.Sprintf("C19 scalar sweep: signature threshold %d", t)})
+		rc.Cov.Cell("C19_scalar_sweep", "threshold/"+okWord(r.OK))
+	}
+}
+
 func runC19(rc *RunCtx) {
 	r := rc.Rand
 	c19KeyValueSweep(rc)
+	c19ScalarSweep(rc)
 	if rc.Shard == 1%rc.NShards {
 		attesterIdentifierStructure(rc, "C19_identifier_structure")
 	}
@@ -1095,6 +1126,9 @@ func init() {
 		Run:    runC17,
 		Floors: func(c *Cov, tier string) []string {
 			var miss []string
+			if m := c.Matrix["C17_duplicate_whatever_values"]; m["burn-limits/struct/dup=true/accepted=false"] < 100 || m["burn-limits/struct/dup=false/accepted=true"] < 20 || len(m) < 10 {
+				miss = append(miss, fmt.Sprintf("duplicates whatever the values: %d cells", len(m)))
+			}
 			for _, l := range c17Lists {
 				for _, k := range []string{"exact-duplicate", "same-key-other-value", "near-duplicate"} {
 					n := 0
@@ -1121,6 +1155,9 @@ func init() {
 		Run:    runC19,
 		Floors: func(c *Cov, tier string) []string {
 			var miss []string
+			if m := c.Matrix["C19_scalar_sweep"]; m["max-body/succeeded"] < 13 || m["threshold/succeeded"] < 4 || m["send-one-byte/max=0/failed"] < 4 {
+				miss = append(miss, fmt.Sprintf("scalar sweep incomplete: %v", m))
+			}
 			for _, reg := range []string{"pair", "messenger", "attester", "nonce"} {
 				for _, o := range []string{"add", "dup"} {
 					if c.Matrix["C19_ops"][reg+"-"+o+"/ok"]+c.Matrix["C19_ops"][reg+"-"+o+"/fail"] == 0 {
